@@ -10,6 +10,7 @@ import (
 	"verif/harness/core"
 	"verif/harness/gen"
 	"verif/harness/obs"
+	"verif/harness/run"
 )
 
 func init() {
@@ -211,6 +212,28 @@ func runC09(c *core.Ctx) {
 			}
 			if i%60 == 0 && ci == i%len(cmds) {
 				crossCheck(c, srv, args, nil, res)
+			}
+		}
+		// the corrupted file through a pipe (a non-seekable input): same messages, same line numbers
+		if i%5 == 0 && k > 0 {
+			content := files[target]
+			largs := append(append([]string{}, pre...), "lint", "/dev/stdin")
+			lres := run.Exec(c.HR, largs, run.ExecOpts{Dir: srv.Dir, Stdin: &content})
+			var cargs []string
+			if inLog {
+				cargs = append(append([]string{}, pre...), "-l", "/dev/stdin", "csv", "log")
+			} else {
+				cargs = append(append([]string{}, pre...), "-d", "/dev/stdin", "csv", "database")
+			}
+			cres := run.Exec(c.HR, cargs, run.ExecOpts{Dir: srv.Dir, Stdin: &content})
+			c.Eval(2)
+			c.Count("runs_from_a_pipe", 2)
+			msgs := obs.Lines(lres.Out)
+			if len(msgs) != k || !mentionsLine(msgs[0], planted[0][0], planted[0][1]) {
+				c.Violation("lint|pipe-differs-from-file", fmt.Sprintf("lint /dev/stdin (piped): %d messages, first %q; planted %v", len(msgs), clip(lres.Out, 200), planted), caseDoc{Files: map[string]string{"stdin": content}, Args: largs, Expected: planted, Observed: resDoc(lres)})
+			}
+			if cres.Exit == 0 || !mentionsLine(cres.ErrText(), planted[0][0], planted[0][1]) {
+				c.Violation("csv|pipe-differs-from-file", fmt.Sprintf("%s (piped): exit %d message %q; first planted line %v", joinArgs(cargs[len(pre):]), cres.Exit, clip(cres.ErrText(), 200), planted[0]), caseDoc{Files: map[string]string{"stdin": content}, Args: cargs, Expected: planted, Observed: resDoc(cres)})
 			}
 		}
 		if i < 3 {
